@@ -77,6 +77,9 @@ def valid_axis(a):
 
 WS_MUST = ("canon", "none", "doubled", "arrow-only", "comma-both", "inside-brackets", "outer", "tabs", "newline-between")
 WS_UNUSUAL = ("space-before-bracket-in", "space-before-bracket-out", "newline-in-brackets")
+# Unusual white space may be rejected (unconstrained), but a string that is *accepted* has to denote what is written
+# ("parsing ... mutually consistent", quantifier "arbitrary whitespace"). Set to False to only record the outcome.
+UNUSUAL_WS_MISPARSE_IS_VIOLATION = True
 
 
 def render(spec, ws="canon", which=0):
@@ -260,9 +263,10 @@ def check_print_parse(spec):
                 oc.add(f"unusual-ws:{ws}:accepted-as-written")
             else:
                 oc.add(f"unusual-ws:{ws}:misparsed")
-                out.append(({"kind": "misparse", "check": "ws-variant", "ws": ws.replace("-in", "").replace("-out", "") if ws.startswith("space") else ws,
-                             "side": "output" if side == "outs" else "input", "impl": _symptom(spec, m2)},
-                            f"from_string({w!r}) silently gave {m2!s}"))
+                if UNUSUAL_WS_MISPARSE_IS_VIOLATION:
+                    out.append(({"kind": "misparse", "check": "ws-variant", "ws": ws.rsplit("-", 1)[0] if ws.startswith("space") else ws,
+                                 "side": "output" if side == "outs" else "input", "impl": _symptom(spec, m2)},
+                                f"from_string({w!r}) silently gave {m2!s}"))
     return out, ev, oc
 
 
@@ -297,7 +301,9 @@ def _copy(spec):
 
 
 def mutations(spec, only_names=False):
-    """single-edit mutation operators -> (mutated structure, operator, {signature extras})"""
+    """single-edit mutation operators -> (mutated structure, operator, {signature extras}).
+    Edits of an input array (its name or indices) are generated for the one-output form of a structure only: the
+    two-output form differs in nothing an input edit touches; every output-side edit is generated for both."""
     p = prep(spec)
     nout = len(spec["outs"])
     res = []
@@ -305,8 +311,9 @@ def mutations(spec, only_names=False):
     def add(s, op, **kw):
         res.append((s, op, kw))
 
+    sides = ("ins", "outs") if nout == 1 else ("outs",)
     if only_names:
-        for side in ("ins", "outs"):
+        for side in sides:
             for k, (n, _) in enumerate(spec[side]):
                 for bad in bad_names(n):
                     s = _copy(spec)
@@ -354,7 +361,7 @@ def mutations(spec, only_names=False):
                 for o in range(nout):
                     del s["outs"][o][1][pos]
                 add(s, "drop-out-index", where="all-outputs")
-    for k, (_, axes) in enumerate(spec["ins"]):
+    for k, (_, axes) in enumerate(spec["ins"] if nout == 1 else ()):
         for pos, ax in enumerate(axes):
             if ax is not None:
                 s = _copy(spec)
@@ -364,7 +371,7 @@ def mutations(spec, only_names=False):
         s["ins"][k][1].append("m")
         add(s, "add-in-index", where=f"input{k}")
     # non-identifier names
-    for side in ("ins", "outs"):
+    for side in sides:
         for k, (n, axes) in enumerate(spec[side]):
             for bad in bad_names(n):
                 s = _copy(spec)
@@ -437,8 +444,9 @@ def check_malformed(mut, via, op, extras, cls=None):
     except Exception as e:  # noqa: BLE001
         return ("rejected", type(e).__name__)
     main = next(c for c in PRIORITY if c in cls)
-    sig = {"kind": "accepted-invalid", "cls": main, "only_class": len(cls) == 1, "op": op, "where": extras.get("where"),
-           "via": via, "impl": _symptom(mut, m)}
+    sig = {"kind": "accepted-invalid", "cls": main, "only_class": len(cls) == 1, "via": via, "impl": _symptom(mut, m)}
+    if main in ("colon-in-output", "nonident-array-name"):
+        sig["where"] = extras.get("where")  # first-output / non-first-output / all-outputs; input / output
     shown = text_form if text_form is not None else f"MapSpec(direct: {render(mut)})"
     return ("accepted", sig, f"malformed ({'+'.join(cls)}) {shown!r} was accepted as {m!s}")
 
@@ -554,10 +562,12 @@ def alt_name(n):
     return n.split(".")[-1] + "_r" if "." in n else "t." + n + "_r"
 
 
-def rename_menu(spec):
+def rename_menu(spec, all_subsets=True):
     names = [n for n, _ in spec["ins"] + spec["outs"]]
     menu = []
     for r in range(1, len(names) + 1):
+        if not all_subsets and 1 < r < len(names):
+            continue
         for sub in itertools.combinations(names, r):
             menu.append(({n: alt_name(n) for n in sub}, r == len(names)))
     full = {n: alt_name(n) for n in names}
@@ -845,7 +855,7 @@ def run_unit(unit):  # noqa: C901, PLR0912, PLR0915
                     for style in (0, 2):
                         spec = make_spec(ins, oax, n_out, style)
                         key = spec_key(spec) if nontrivial(spec) else None
-                        for ren, sweep in rename_menu(spec):
+                        for ren, sweep in rename_menu(spec, all_subsets=style == 0 or tier != "quick"):
                             sweep = bool(sweep and style == 0 and (n_out == 1 or tier != "quick"))
                             vs, ev = check_rename(spec, ren, sweep)
                             acc.case(key, n=ev)
@@ -859,6 +869,9 @@ def run_unit(unit):  # noqa: C901, PLR0912, PLR0915
                                 acc.stratum(f"add_axes:{len(axes)}-new:" + ("with-sweep" if sweep else "structure"))
                                 report({"op": "add_axes", "spec": spec, "axes": list(axes), "sweep": sweep}, vs)
             elif stage == "index-naming":
+                if tier == "quick" and total_rank > 5:
+                    acc.stratum("index-naming:not-in-this-tier(6-input-axes)")
+                    continue
                 spec = make_spec(ins, oax, 1, 0)
                 names = []
                 for _, ax in spec["ins"] + spec["outs"]:
